@@ -231,6 +231,8 @@ func c10Gen(r *Rng, tier string, i int) Sx {
 		}
 		if r.Chance(1, 6) {
 			mainOps = append(mainOps, L(A("panic"), I(main)))
+		} else if r.Chance(1, 6) { // the handler installs a chain of its own (SetHandlers) that the application keeps
+			mainOps = append(mainOps, L(A("sh")))
 		}
 		hs = append(hs, L(I(mw), LS(mwOps)), L(I(main), LS(mainOps)))
 		p := fmt.Sprintf("/r%d", k)
@@ -240,6 +242,10 @@ func c10Gen(r *Rng, tier string, i int) Sx {
 	opts := []Sx{L(A("twin"))}
 	if r.Chance(1, 2) {
 		opts = append(opts, L(A("na")))
+		if r.Chance(1, 2) { // a custom NotAllowed handler that looks at the allowed methods and edits the list it was handed
+			hs = append(hs, L(I(40), L(ev(400), L(A("snap")), wst(405), L(A("mal")))))
+			stmts = append(stmts, L(A("nal"), I(40)))
+		}
 	}
 	if r.Chance(2, 3) {
 		opts = append(opts, L(A("onpanic"), L(wst(500))))
